@@ -116,6 +116,8 @@ type CallRec struct {
 }
 
 type State struct {
+	caseTerm       *Term // proof-by-cases hint (see markCases)
+	caseLo, caseHi int
 	unfolded map[int]bool // applications of recursive ghost functions already unfolded on this path
 	pc    []*Term
 	objs  map[*Object]Value
@@ -133,7 +135,8 @@ func newState() *State {
 
 func (s *State) clone() *State {
 	n := &State{pc: append([]*Term(nil), s.pc...), objs: make(map[*Object]Value, len(s.objs)), rgn: make(map[*Region]*RegionState, len(s.rgn)),
-		inst: append([]*Term(nil), s.inst...), qh: append([]*QHyp(nil), s.qh...), alloc: s.alloc, trace: append([]CallRec(nil), s.trace...)}
+		inst: append([]*Term(nil), s.inst...), qh: append([]*QHyp(nil), s.qh...), alloc: s.alloc, trace: append([]CallRec(nil), s.trace...),
+		caseTerm: s.caseTerm, caseLo: s.caseLo, caseHi: s.caseHi}
 	for k, v := range s.objs {
 		n.objs[k] = v
 	}
